@@ -17,7 +17,7 @@ import (
 func init() {
 	register(&Spec{ID: "C10", Title: "No server input can crash the client", Run: runC10,
 		Meta: core.Meta{
-			Explanation: "R10.19 = R15.6 (a packet size announced while a packet is partly filled makes a free-space computation from the live size negative: slice bounds out of range). R10.17: no φ input of the interface value on which LookupFieldFmt invokes SetDataType is the nil constant. R10.18: NewTokenlessPackage stores a non-nil Data. R10.16 = R02.1 (on a failed attempt WritePacket resets at end of message and otherwise restores the saved position; a position restored into the emptied queue makes the next message's first read slice out of range). R10.15 = R03.2 (lastPkgRx is assigned after delivery only: a half-filled ROWFMT as predecessor makes the next ROW dereference nil column formats). Panic-site obligations over everything reachable from the reader goroutine. Scope: module functions reachable (VTA call graph, plus formatting edges: every String/Error method of the parsing packages) from (*Conn).ReadFrom, (*Channel).WritePacket, DataType.GoValue and rsaEncrypt; generated stringer files are excluded. R10.1: every slice/string index and every slice expression in scope is proved in range from length facts (allocation, constant-bound slicing, callee post-conditions, dominating len tests, lowered `switch len(bs)`), from induction/range-loop patterns, or is listed in the reviewed-invariant table together with the guard it relies on, which is re-checked on every run; a site that is neither is a violation (so a new unguarded index and the removal of an existing guard are both reported). R10.2: every encoding/binary ByteOrder UintN/PutUintN call (interface calls the compiler's bounds-check list does not contain) has len >= N. R10.3: no comma-less type assertion, explicit panic, or division by a possibly-zero value in scope. R10.4 (allocation provenance): the size of every make([]T, n) in scope is a constant, a length of received data, a <= 16-bit wire integer, or is dominated by a test against the bytes actually available; wire-controlled sizes that can be negative are violations. R10.5: the callee post-condition used by R10.1/R10.2 — PacketQueue.Bytes returns a slice of exactly n bytes on every return — is verified structurally; the DataType length oracle's premises (goValue's only caller is GoValue, behind the ByteSize test) are verified. R10.6: precision and scale copied from the wire into a Decimal are validated (sanity) before the value leaves the parser. R10.7: every loop in a wire-reading function performs a wire read per iteration or iterates over data already held. R10.8: a slice of pointers/interfaces allocated from a wire count and filled in a counted loop is filled completely before the parse can succeed (the loop's only normal exit is `i < n` turning false), so no nil entry is dereferenced by a later package. R10.11 = R07.1: every wire read reports a short read as ErrNotEnoughBytes and never as success — an io.Reader over the queue that answers (n, nil) without data makes bytes.Buffer.ReadFrom (TokenlessPackage) grow without bound from a one-byte input. R10.12: NextPackageUntil's self-calls are depth-bounded — a nil callback is passed only under processPkg != nil, and nil mode recurses with a function literal — so a server that never sends DONE(FINAL) cannot grow the stack with every package. R10.13: in scope, the result of indexing a map with pointer/interface/function elements is dereferenced only under `ok` or a != nil test (the key is frequently a server-chosen byte). R10.14 = R13.3 (every *Channel method that touches the queues or Go channels tests `closed` under the channel lock first; Close closes and nils the Go channels under the write lock — a header-only packet handed over before that test can hit a closed or nil channel). R10.9: the format pointers ParamsPackage.paramFmt/rowFmt, which come from whatever package the server sent before, are only dereferenced under a != nil test of that field.",
+			Explanation: "R10.20: every update of the map Conn.tdsChannels stores a non-nil *Channel (Conn.ReadFrom calls WritePacket on whatever the lookup finds; a closed channel is deleted, not blanked). R10.19 = R15.6 (a packet size announced while a packet is partly filled makes a free-space computation from the live size negative: slice bounds out of range). R10.17: no φ input of the interface value on which LookupFieldFmt invokes SetDataType is the nil constant. R10.18: NewTokenlessPackage stores a non-nil Data. R10.16 = R02.1 (on a failed attempt WritePacket resets at end of message and otherwise restores the saved position; a position restored into the emptied queue makes the next message's first read slice out of range). R10.15 = R03.2 (lastPkgRx is assigned after delivery only: a half-filled ROWFMT as predecessor makes the next ROW dereference nil column formats). Panic-site obligations over everything reachable from the reader goroutine. Scope: module functions reachable (VTA call graph, plus formatting edges: every String/Error method of the parsing packages) from (*Conn).ReadFrom, (*Channel).WritePacket, DataType.GoValue and rsaEncrypt; generated stringer files are excluded. R10.1: every slice/string index and every slice expression in scope is proved in range from length facts (allocation, constant-bound slicing, callee post-conditions, dominating len tests, lowered `switch len(bs)`), from induction/range-loop patterns, or is listed in the reviewed-invariant table together with the guard it relies on, which is re-checked on every run; a site that is neither is a violation (so a new unguarded index and the removal of an existing guard are both reported). R10.2: every encoding/binary ByteOrder UintN/PutUintN call (interface calls the compiler's bounds-check list does not contain) has len >= N. R10.3: no comma-less type assertion, explicit panic, or division by a possibly-zero value in scope. R10.4 (allocation provenance): the size of every make([]T, n) in scope is a constant, a length of received data, a <= 16-bit wire integer, or is dominated by a test against the bytes actually available; wire-controlled sizes that can be negative are violations. R10.5: the callee post-condition used by R10.1/R10.2 — PacketQueue.Bytes returns a slice of exactly n bytes on every return — is verified structurally; the DataType length oracle's premises (goValue's only caller is GoValue, behind the ByteSize test) are verified. R10.6: precision and scale copied from the wire into a Decimal are validated (sanity) before the value leaves the parser. R10.7: every loop in a wire-reading function performs a wire read per iteration or iterates over data already held. R10.8: a slice of pointers/interfaces allocated from a wire count and filled in a counted loop is filled completely before the parse can succeed (the loop's only normal exit is `i < n` turning false), so no nil entry is dereferenced by a later package. R10.11 = R07.1: every wire read reports a short read as ErrNotEnoughBytes and never as success — an io.Reader over the queue that answers (n, nil) without data makes bytes.Buffer.ReadFrom (TokenlessPackage) grow without bound from a one-byte input. R10.12: NextPackageUntil's self-calls are depth-bounded — a nil callback is passed only under processPkg != nil, and nil mode recurses with a function literal — so a server that never sends DONE(FINAL) cannot grow the stack with every package. R10.13: in scope, the result of indexing a map with pointer/interface/function elements is dereferenced only under `ok` or a != nil test (the key is frequently a server-chosen byte). R10.14 = R13.3 (every *Channel method that touches the queues or Go channels tests `closed` under the channel lock first; Close closes and nils the Go channels under the write lock — a header-only packet handed over before that test can hit a closed or nil channel). R10.9: the format pointers ParamsPackage.paramFmt/rowFmt, which come from whatever package the server sent before, are only dereferenced under a != nil test of that field.",
 			NotDecided:  "Nil dereferences (nilaway's two reports on the pinned tree are infeasible), panics inside the standard library, stack exhaustion and unbounded CPU are not decided.",
 			Assumptions: []string{"the reviewed-invariant table entries (each with the guard it names)", "math/big, bytes, encoding/binary do not panic on the inputs they are given"},
 		}})
@@ -127,6 +127,8 @@ func runC10(r *core.Run) {
 	defer c10RecursionBounded(r)
 	r.Rule("R10.14", "the reader touches a channel's Go channels only after the closed test under the lock (a send on a closed or nil channel panics or parks the reader) (R13.3)", 7, false)
 	defer func() { c13Closed(r, newLockAnalysis(p, "tds"), "R10.14") }()
+	r.Rule("R10.20", "the routing table never holds a nil channel", 1, false)
+	defer noNilChannelRegistered(r, "R10.20")
 	r.Rule("R10.15", "only completely parsed packages become the predecessor the next package is prepared from (R03.2)", 5, false)
 	defer c03Synthetic(r, r.Prog.Field("tds", "DonePackage", "Status"), "R10.15")
 	r.Rule("R10.16", "end of message either resets the receive queue or rolls it back, never both (R02.1)", 4, false)
